@@ -45,7 +45,7 @@ Ltac prx := apply PR_ext; reflexivity.
 (* start with a context c that is not nil, in a state whose container context is c *)
 Lemma PR_start_gen s r c w f : kctx s = c -> c <> 0 -> PR s (start_rec s r c w f).
 Proof.
-  intros Ek Hc. unfold start_rec. set (x := getr s r). destruct (negb f && rsucc x); [apply PR_refl|].
+  intros Ek Hc. unfold start_rec. set (x := getr s r). destruct (negb f && rsucc x || rnil x); [apply PR_refl|].
   destruct (negb f && is_some (rctx x) && negb (rexited x) && ctx_live s (rctx x)); [apply PR_refl|]. cbn zeta.
   set (s2 := cancel_inst (stop_timer s (rretry x)) (rcancel x)).
   assert (P2 : PR s s2) by (eapply PR_trans; [apply PR_stop_timer | apply PR_cancel_inst]).
@@ -78,7 +78,7 @@ Qed.
 (* ---- SetContext ---- *)
 Lemma kctx_start_rec s r c w f : kctx (start_rec s r c w f) = kctx s.
 Proof.
-  unfold start_rec. destruct (negb f && rsucc (getr s r)); [reflexivity|].
+  unfold start_rec. destruct (negb f && rsucc (getr s r) || rnil (getr s r)); [reflexivity|].
   destruct (negb f && is_some (rctx (getr s r)) && negb (rexited (getr s r)) && ctx_live s (rctx (getr s r))); [reflexivity|].
   cbn [kctx setr set_recs set_insts]. now rewrite kctx_cancel_inst, kctx_stop_timer.
 Qed.
@@ -131,7 +131,7 @@ Proof.
       intros j x Hx Hc.
       (* an instance of the state after start: an old one (unchanged or cancelled) or the new one *)
       unfold start_rec in Hx. set (y := getr a2 r) in *.
-      destruct (negb false && rsucc y); [destruct (M2 j x Hx Hc) as [R|L]; [right | left]; auto|].
+      destruct (negb false && rsucc y || rnil y); [destruct (M2 j x Hx Hc) as [R|L]; [right | left]; auto|].
       destruct (negb false && is_some (rctx y) && negb (rexited y) && ctx_live a2 (rctx y)); [destruct (M2 j x Hx Hc) as [R|L]; [right | left]; auto|].
       cbn zeta in Hx. rewrite insts_setr in Hx. cbn [insts set_insts] in Hx.
       destruct (nth_error_app_inv _ _ _ _ Hx) as [G| ->]; [|left; cbn [iroot]; auto].
@@ -181,7 +181,7 @@ Qed.
 Theorem IRC_step s e : W s -> IRC s -> IRC (step repaired s e).
 Proof.
   intros HW H. destruct (ordinary e) eqn:O; [now apply (PR_ordinary s e O)|].
-  destruct e; try discriminate O; cbn [step]; [now apply IRC_set_context | | now apply IRC_cancel_root].
+  destruct e; try discriminate O; cbn [step]; [now apply IRC_set_context | | now apply IRC_cancel_root | revert H; apply PR_ext; reflexivity].
   unfold advance. revert H. apply PR_ext; reflexivity.
 Qed.
 Theorem run_IRC dl sc es : IRC (run repaired (init dl sc) es).
